@@ -119,3 +119,9 @@ func vh_C20_glob_filter_E_Q() {
 		symxAssert(found == matched[k], "C20.glob-filter.file-is-a-source-file-iff-matched")
 	}
 }
+
+// VhRegister makes a type-checked package and one of its files known to the facade the way a load would.
+func VhRegister(f *PackagesFacade, pkg *packages.Package, absPath string, file *ast.File) {
+	f.registerParsedFile(absPath, file, pkg)
+	f.packagesCache[pkg.PkgPath] = pkg
+}
